@@ -35,8 +35,15 @@ def run(tier, seed, replay=None):
     n_sched_blind = 0
     op_cases, op_want, n_op_coq = [], [], 0
     cancel = [False]
+    n_resc = [0]
     def rescale(t):
         """the contract is relative to the norm: every fourth operand is of tiny / huge magnitude (scale carried by one core)"""
+        n_resc[0] += 1
+        if n_resc[0] % 6 == 3:
+            # an exactly zero rank slot (zeros + t, kept unrounded): every unfolding has exactly vanishing columns - a QR factor R with zeros on its diagonal
+            z_ = torchtt.zeros([(int(m_), int(n_)) for m_, n_ in zip(t.M, t.N)] if t.is_ttm else [int(n_) for n_ in t.N], dtype=t.cores[0].dtype)
+            dist["zero rank slot"] = dist.get("zero rank slot", 0) + 1
+            return z_ + t if n_resc[0] % 12 == 3 else t + z_
         if rng.random() < 0.25:
             sc = rng.choice([1e-9, 1e-14, 1e-30, 1e10]); k_ = rng.randrange(len(t.cores))
             dist["scaled operand"] = dist.get("scaled operand", 0) + 1
